@@ -1,7 +1,7 @@
 (* C16 — session table hygiene: dead ids are inert, sessions isolated, nothing leaks.  Model: theories/Server.v. *)
 From Coq Require Import NArith List Bool.
 Import ListNotations.
-From EIO Require Import Server ServerInv ServerProofs ServerCor ServerUpg ServerSvc.
+From EIO Require Import Server ServerInv ServerProofs ServerCor ServerUpg ServerSvc ServerIso.
 Open Scope N_scope.
 
 (* send() to an id that is not in the table is a silent no-op: the whole state is unchanged, nothing is emitted *)
@@ -39,9 +39,28 @@ Theorem c16_monitor_visit_reaps_closed : forall cfg fuel me i r iv s, s_closed (
   table (stof (svc_continue cfg fuel me (i :: r) iv s)) = nrem i (table s).
 Proof. exact visit_closed_reaps. Qed.
 
+(* sessions are isolated: a step that runs on behalf of one session never touches the record (queue, flags, counters, user data)
+   of any other session - whatever the packets carry and whatever the handlers of its messages do (send, disconnect, raise).
+   (i) its tasks: the long poll, the WebSocket handler and writer, the heartbeat, a message handler, a close of it *)
+Theorem c16_task_isolated : forall cfg me e i s, session_of (t_task e) = Some i ->
+  forall j, j <> i -> cur j (stof (run_task cfg me e s)) = cur j s.
+Proof. exact task_isolated. Qed.
+(* (ii) a request that names it: poll, post, upgrade *)
+Theorem c16_request_isolated : forall cfg me r q i s,
+  decision_session (decide cfg q (valof (lookup_view cfg q s))) = Some i ->
+  forall j, j <> i -> cur j (stof (handle_request cfg me r q s)) = cur j s.
+Proof. exact request_isolated. Qed.
+(* (iii) send / disconnect(sid) / transport / get_session / save_session for it *)
+Theorem c16_api_isolated : forall cfg me a x i s, api_session x = Some i ->
+  forall j, j <> i -> cur j (stof (run_api cfg me a x s)) = cur j s.
+Proof. exact api_isolated. Qed.
+
 Print Assumptions c16_dead_send_noop.
 Print Assumptions c16_closed_send_noop.
 Print Assumptions c16_dead_api_keyerror.
 Print Assumptions c16_ids_never_reused.
 Print Assumptions c16_table_ids_have_records.
 Print Assumptions c16_monitor_visit_reaps_closed.
+Print Assumptions c16_task_isolated.
+Print Assumptions c16_request_isolated.
+Print Assumptions c16_api_isolated.
